@@ -11,5 +11,5 @@ timeout 3600 python3-vt -m checks.run $id $tier > /tmp/mutcheck_$id.log 2>&1
 rc=$?
 git -C /repo checkout -- .
 cp /tmp/evidence_backup_$id.json evidence/$id.json 2>/dev/null
-grep -E "^(VIOLATION|KNOWN-FINDING|INCONCLUSIVE|C[0-9]+ )" /tmp/mutcheck_$id.log | cut -c1-300 | head -12
+grep -E "^(VIOLATION|KNOWN-FINDING|C[0-9]+ )" /tmp/mutcheck_$id.log | cut -c1-300 | head -12; grep -E "^INCONCLUSIVE" /tmp/mutcheck_$id.log | cut -c1-300 | head -4
 echo "exit=$rc"
